@@ -49,6 +49,7 @@ PROBES = [
     "standalone_distributor_reused", "labels_remeasured_between_computes", "option_written_directly",
     "caller_dropped_label_set", "engine_dropped_labels_kept", "caller_edits_dict_it_passed",
     "label_list_emptied_in_place", "engine_kept_labels_after_list_emptied", "long_lived_process_run",
+    "abort_placed_by_function",
 ]
 
 RULE = {
@@ -373,7 +374,8 @@ def gen_plan(rng, tier):
             ops.append(["abort_compute", e, rng.randrange(0, 1000000),
                         rng.choice(["any", "any", "node.py", "distributor.py", "force.py",
                                     "removeOverlap.py", "vpsc.py", "<lambda>"]),
-                        rng.choice(["SimAbort", "SimAbort", "MemoryError", "KeyboardInterrupt"])])
+                        rng.choice(["SimAbort", "SimAbort", "MemoryError", "KeyboardInterrupt"])]
+                       + ([rng.randrange(0, 1000000)] if rng.random() < 0.5 else []))
         elif r < 0.76 and enabled["stack"]:
             ops.append(["stack_compute", e, int(math.exp(rng.uniform(math.log(5), math.log(80))))])
         elif r < 0.88 and enabled["stale"]:
@@ -494,6 +496,8 @@ def check_c04(layers, labels, dist_opts, engine_mode, stats):
     """layers: what the engine / distributor reports.  labels: the input label
     objects.  dist_opts: effective distributor options (algorithm, layerWidth,
     density, nodeSpacing, stubWidth).  Returns None or (class, detail)."""
+    if isinstance(layers, (list, tuple)) and all(isinstance(l, (list, tuple)) for l in layers):
+        layers = [list(l) for l in layers]  # any sequence of sequences is a layering
     if not isinstance(layers, list) or not layers or not all(isinstance(l, list) for l in layers):
         return ("report_not_a_layering", {"reported": type(layers).__name__ if not isinstance(layers, list) else "empty or malformed list"})
     label_ids = {id(n): i for i, n in enumerate(labels)}
@@ -654,12 +658,6 @@ def _observed_map(labels):
         key = "%s|%s" % (canon(n.idealPos), canon(n.width))
         m.setdefault(key, []).append([n.layerIndex, n.currentPos])
     return {k: canon(sorted(v, key=lambda t: (t[0], t[1]))) for k, v in m.items()}
-
-
-def _count_lines(force, scope):
-    """Dry run in a forked copy of this process: how many line events (within
-    scope, and in all) does this compute have?"""
-    return seams.dry_count(force.compute, scope)
 
 
 def _stale_flags(labels, stats):
@@ -1007,16 +1005,14 @@ def _run(plan):
                         outcome = "raise:" + type(ex).__name__
                 elif kind == "abort_compute":
                     bump("fault:abort:configured")
-                    scope = op[3] if len(op) > 3 else "any"
-                    total, total_any = _count_lines(f, scope)
-                    if total == 0:
-                        scope = "any"
-                        total = total_any
-                    k = 1 + (total * op[2]) // 1000000
+                    k, scope, func = seams.abort_point(f.compute, op[3] if len(op) > 3 else "any", op[2],
+                                                       op[5] if len(op) > 5 else None)
                     exc_name = op[4] if len(op) > 4 else "SimAbort"
                     exc = {"SimAbort": seams.SimAbort, "MemoryError": MemoryError,
                            "KeyboardInterrupt": KeyboardInterrupt}[exc_name]
-                    tr = seams.AbortTracer(k, scope, exc)
+                    tr = seams.AbortTracer(k, scope, exc, func)
+                    if func:
+                        bump("probe:abort_placed_by_function")
                     try:
                         with tr:
                             f.compute()
